@@ -7,7 +7,7 @@ Python (dask/array/creation.py, dask/array/chunk.py)                       Lean
 ---------------------------------------------------                       ----
 start != 0 and not np.isclose(start + step - start, step, atol=0)          `arangeShiftF`
     r = arange(0, stop - start, step, ...); return r + start               `arangePlanF` (`shifted = true`), `arangeValuesF`
-num = int(max(np.ceil((stop - start) / step), 0))                          `arangeNumF` (`none` = ZeroDivisionError)
+num = int(max(np.ceil(quot), 0)); if quot == 0 and stop != start and not signbit(quot): num = 1   `arangeNumF`
 pair = np.asarray([start, start + step]); first, second = pair             `arangePlanF.first/second`
 res = first + idx.astype(comp) * (second - first); res[1] = second         `arangeElem f64Arith` (Model/Creation.lean)
 linspace: range_ = np.subtract(stop, start, dtype=dt); step = float(range_)/div   `linspacePlanF`
@@ -20,9 +20,13 @@ open Dask.SoftFloat
 /-- binary64 arithmetic; `idx.astype(float64)` is the correctly rounded conversion -/
 def f64Arith : Arith F64 := ⟨SoftFloat.add, SoftFloat.sub, SoftFloat.mul, fun i => ofInt (i : Int)⟩
 
-/-- `num = int(max(np.ceil((stop - start) / step), 0))` in binary64; `none` = ZeroDivisionError -/
+/-- `quot = (stop - start) / step; num = int(max(np.ceil(quot), 0))` in binary64, and NumPy's rule for a quotient that
+    underflowed to zero although `stop != start` (`fix: da.arange has one element when … underflows`): one element if it
+    is `+0.0` (the model has no signed zero: the sign is that of the exact quotient); `none` = ZeroDivisionError -/
 def arangeNumF (start stop step : F64) : Option Nat :=
-  (SoftFloat.div (sub stop start) step).map (fun q => (ceil q).toNat)
+  let delta := sub stop start
+  (SoftFloat.div delta step).map (fun q =>
+    if q.m = 0 ∧ delta.m ≠ 0 then (if delta.m.sign * step.m.sign < 0 then 0 else 1) else (ceil q).toNat)
 
 /-- the guard `start != 0 and not np.isclose(start + step - start, step, atol=0)` -/
 def arangeShiftF (start step : F64) : Bool :=
